@@ -188,7 +188,12 @@ class Schedules3D(Space):
                         np.array([[S.word_signal(WORDS[-1])], [S.word_signal(WORDS[-2])]])
                     saved, sched.VirtualPool.order = sched.VirtualPool.order, None
                     bg.fit(other, FS, FR, axis=(0, 1), n_jobs=1)
+                    # ... and then on the VERY array object of the final fit, in another axis mode
+                    same = arr()
+                    bg.fit(same, FS, FR, axis={0: 1, 1: (0, 1)}.get(axis, 0), n_jobs=1)
                     sched.VirtualPool.order = saved
+                    bg.fit(same, FS, FR, axis=axis, n_jobs=nj)
+                    return bg.df_features, bg
                 if (n0 + n1 + nj) % 2:
                     bg.fit(arr(), FS, FR, axis, nj)          # axis and n_jobs passed positionally (documented order)
                 else:
